@@ -299,7 +299,7 @@ def oracle(case, res, keys, fam_info, consts):
     if len(case["containers"]) > fam_info["containers_max_cnt"]:
         bad.append(("too-many-containers", "more containers than the family allows were exported"))
     occupied = []
-    zext = [False]
+    zext = []          # container index of every entry that shows exactly the C06-F4 outcome
     for k, c in enumerate(case["containers"]):
         co = k * csize
         if co + 16 > len(b):
@@ -352,9 +352,14 @@ def oracle(case, res, keys, fam_info, consts):
                         n = len(blob_.rstrip(b"\0"))
                         n = (n + 15) // 16 * 16
                         while n <= len(blob_) and not cls:
-                            if not any(blob_[n:]) and hashlib.sha256(aes_cbc_dec(dek, ri["iv"][16:], blob_[:n])).digest() == ri["iv"]:
+                            # the exact defective outcome of C06-F4 and nothing else: a prefix of the entry is the correct cipher
+                            # text (decrypts to the configured image, zero padded, whose SHA-256 is the IV field) and ALL remaining
+                            # bytes of the entry are zero; any other wrong content keeps the unclassified signature (VIOLATION)
+                            pre = aes_cbc_dec(dek, ri["iv"][16:], blob_[:n])
+                            if (not any(blob_[n:]) and n < len(blob_) and hashlib.sha256(pre).digest() == ri["iv"]
+                                    and pre == data + bytes(len(pre) - len(data))):
                                 cls = ":size-aligned-ciphertext"
-                                zext[0] = True
+                                zext.append(k)
                             n += 16
                     if hashlib.sha256(plain).digest() != ri["iv"]:
                         bad.append(("entry-iv" + cls, f"{tag}: SHA-256 of the decrypted data is not the IV field"))
@@ -417,7 +422,11 @@ def oracle(case, res, keys, fam_info, consts):
             bad.append(("parse-back-unequal", "parse(export(x)) != x"))
         if res.get("parsed_verify_errors"):
             names = ";".join(sorted({e.split("/")[-1] for e in res["parsed_verify_errors"]}))
-            if names == "Decrypted data" and zext[0]:
+            # excused as C06-F4 only when the verifier's errors are exactly one 'Decrypted data' record per entry that the oracle
+            # above classified (same containers, same count); an extra or different error keeps its own signature
+            errs = res["parsed_verify_errors"]
+            if zext and all(e.endswith("/Image Encryption/Decrypted data") and e.startswith("Container ") for e in errs) \
+                    and sorted(int(e.split("/")[0].split()[1]) for e in errs) == sorted(zext):
                 names += ":size-aligned-ciphertext"
             bad.append((f"parsed-verify-error:{names}", f"verify() of the parsed image reports {res['parsed_verify_errors'][:3]}"))
         elif res.get("reexport") is not True:
